@@ -512,7 +512,9 @@ def cellFits (fmt : Format) (k : Kind) : Cell → Bool
 
 /-- dtypes every format here can hold (VOTable has `unsignedByte` only). -/
 def kindOk (fmt : Format) : Kind → Bool
-  | .int b => b = 16 || b = 32 || b = 64
+  | .int b => b = 16 || b = 32 || b = 64 ||
+      -- signed bytes: no FITS / VOTable type (astropy: logical column, TypeError, BZERO + BLANK)
+      (b = 8 && (fmt.ascii || fmt = .hdf5))
   | .uint b => if fmt = .votable then b = 8 else b = 8 || b = 16 || b = 32 || b = 64
   | _ => true
 
@@ -557,6 +559,80 @@ def blankClause (fmt : Format) (d : Dataset) (sel : Option (List Bool)) (comps :
 /-- The hypothesis `P` of the theorems: the quantifier, minus the known finding. -/
 def inDomain (fmt : Format) (d : Dataset) (sel : Option (List Bool)) (comps : Option (List Nat)) : Bool :=
   inQuantifier fmt d sel comps && blankClause fmt d sel comps
+
+/-! ## Storage layout (round 2)
+
+How the values of a component sit in memory is not part of the table / image: byte order, strides,
+C / Fortran order, writeability, being a window into a larger buffer, alignment, and for text the
+item type (`U` code points, fixed-width bytes `S`, Python objects, item width).  The harness builds
+the same values under every layout and sends the tag along; the model carries it and **ignores**
+it (`Props.C19.layout_irrelevant`), so an exporter whose output depends on the layout disagrees
+with `roundTripStored` and is rejected by `specOkStored`. -/
+
+inductive Layout where
+  | native        -- C-contiguous, native byte order, owns its data
+  | swapped       -- non-native byte order (`>f8`, `>i4`, `>U3` …: what FITS readers return)
+  | strided       -- every second element of a larger array
+  | reversed      -- negative strides on every axis
+  | fortran       -- Fortran order (n-d) / a column of a C-ordered 2-d array (1-d)
+  | readonly      -- `flags.writeable = False`
+  | window        -- contiguous window into a larger buffer
+  | unaligned     -- items not aligned to their size
+  | swapstrided   -- non-native byte order and strided
+  | fitslike      -- non-native, Fortran order, read-only
+  | bcast         -- broadcast (stride 0) view when all values are equal
+  | bytes         -- text as fixed-width bytes `S`
+  | object        -- text as an object array of `str`
+  | wide          -- text with items wider than the longest entry
+  deriving DecidableEq, Repr
+
+/-- A component as it is held in memory: its values and how they are laid out. -/
+structure StoredColumn where
+  col : Column
+  layout : Layout
+  deriving Repr
+
+structure StoredDataset where
+  shape : List Nat
+  cols : List StoredColumn
+  deriving Repr
+
+/-- The table / image a stored dataset *is*: its values, without the layouts. -/
+def StoredDataset.values (s : StoredDataset) : Dataset := ⟨s.shape, s.cols.map (·.col)⟩
+
+/-- The same values under other layouts. -/
+def StoredDataset.relayout (f : Layout → Layout) (s : StoredDataset) : StoredDataset :=
+  ⟨s.shape, s.cols.map fun c => ⟨c.col, f c.layout⟩⟩
+
+/-- What the driver runs for the `tab` / `img` / `lay` / `chain` families. -/
+def roundTripStored (fmt : Format) (s : StoredDataset) (sel : Option (List Bool))
+    (comps : Option (List Nat)) : Except Err (List LData) := roundTrip fmt s.values sel comps
+
+def specOkStored (fmt : Format) (s : StoredDataset) (sel : Option (List Bool))
+    (comps : Option (List Nat)) (out : List LData) : Bool := specOk fmt s.values sel comps out
+
+def inQuantifierStored (fmt : Format) (s : StoredDataset) (sel : Option (List Bool))
+    (comps : Option (List Nat)) : Bool := inQuantifier fmt s.values sel comps
+
+def inDomainStored (fmt : Format) (s : StoredDataset) (sel : Option (List Bool))
+    (comps : Option (List Nat)) : Bool := inDomain fmt s.values sel comps
+
+/-! ## Chained round trips (round 2)
+
+`export A → load → export B → load`: the second exporter is handed the dataset the first reader
+produced.  `kinds` are the dtype kinds of that loaded dataset (the codec's choice: CSV makes every
+integer `int64`, FITS keeps `int16` …), reported by the harness. -/
+
+def datasetOf (ld : LData) (kinds : List Kind) : Dataset :=
+  ⟨ld.shape, (ld.comps.zip kinds).map fun p => ⟨p.1.name, p.2, false, p.1.cells⟩⟩
+
+/-- Second hop of a chain: the first loaded `Data` object is exported (whole, or a subset / a
+component filter of it) with `fmt` and loaded again. -/
+def secondHop (fmt : Format) (out1 : List LData) (kinds : List Kind) (sel : Option (List Bool))
+    (comps : Option (List Nat)) : Option (Dataset × Except Err (List LData)) :=
+  match out1 with
+  | [] => none
+  | ld :: _ => some (datasetOf ld kinds, roundTrip fmt (datasetOf ld kinds) sel comps)
 
 /-! ## Registered exporters (by function name), each mapped to a format of the model -/
 
